@@ -111,6 +111,13 @@ CLAIMED = {
             "values (Decimal); a panic on a case that satisfies the statement's precondition is a violation, the number of "
             "excluded cases is reported per precondition clause.",
             TRUST_E1 + " The Decimal precondition is read as in DESIGN.md 5.18 (includes the own-unit product/quotient of the amounts).", "5.18"),
+    "C19": (E3, "exhaustive enumeration of the feature-configuration lattice; each configuration built by cargo from the working tree, probed for the items it must expose, and a fixed corpus compared between minimal and full configurations",
+            "quick: the 16 feature sets of the statement (each of 14 alone, none, all) at the two opposite corners of "
+            "{std} x {f64, fpdec} x {serde} plus none/all at the other six (44 builds), exposure probe per build, corpus "
+            "of 29 000 output lines per run for all 14 features (f64). thorough: all 380 dependency-closed feature sets "
+            "x 8 variants = 3 040 builds (every requestable configuration is equivalent to one of them), corpus in both "
+            "back-ends.",
+            "Trusted: cargo's feature resolution; the model's derivation table for the exposure probe. amnt_f32 (32-bit targets) cannot be built here.", "5.19"),
 }
 
 PENDING_REASON = "check not built yet in this revision of /verif (see DESIGN.md section 5 for the planned exploration)"
